@@ -15,6 +15,8 @@ func main() {
 		checkMain(os.Args[2:])
 	case "rel":
 		relMain(os.Args[2:])
+	case "softcol":
+		softColMain(os.Args[2:])
 	case "schema":
 		schemaMain(os.Args[2:])
 	default:
